@@ -748,6 +748,8 @@ func (e *c18Env) probe(r *kit.Rng, v *c18Version, store string, key []byte, keyK
 		c.Sample(map[string]any{"store": store, "key": hex.EncodeToString(key), "present": present, "version": v.ver, "root": hex.EncodeToString(v.root), "iavl_depth": dc, "honest": "verified"})
 	}
 
+	e.singleTree(r, base, store, key, kindName)
+
 	ms := e.mutations(r, base, v)
 	kit.Shuffle(r, ms)
 	done := 0
@@ -787,6 +789,53 @@ func (e *c18Env) probe(r *kit.Rng, v *c18Version, store string, key []byte, keyK
 			c.Inc("neutral_mutants_accepted")
 		default:
 			e.lim.violate("C18|mutated-proof-verified|"+m.kind, fmt.Sprintf("single mutation %s of an honest %s-key proof still verified", m.kind, kindName), w)
+		}
+	}
+}
+
+// singleTree re-uses the store-level half of an honest proof as the proof of a counterparty whose provable store is ONE Merkle
+// tree (one proof spec, a one-element key path, root = that tree's root, which the multistore half of the honest proof commits to):
+// it must verify under the tree's root and under no other root.
+func (e *c18Env) singleTree(r *kit.Rng, base claim, store string, key []byte, kindName string) {
+	c := e.c
+	if len(base.proof.Proofs) != 2 || base.proof.Proofs[1].GetExist() == nil || len(e.specs) != 2 {
+		return
+	}
+	sub := claim{member: base.member, root: bytes.Clone(base.proof.Proofs[1].GetExist().Value), path: [][]byte{bytes.Clone(key)}, value: bytes.Clone(base.value),
+		specs: e.specs[:1], proof: commitmenttypes.MerkleProof{Proofs: cloneProof(base.proof).Proofs[:1]}}
+	ok, perr := e.verify(sub.clone())
+	if perr != nil {
+		e.lim.violate("C18|verifier-panics|single-tree-honest", fmt.Sprintf("verifier panicked on an honest single-tree proof: %v", perr), map[string]any{"store": store, "key": hex.EncodeToString(key)})
+		return
+	}
+	if !ok {
+		c.Inc("single_tree_honest_rejected")
+		return
+	}
+	c.Inc("single_tree_honest_accepted_" + kindName)
+	for _, kind := range []string{"root-bit-flipped", "unrelated-root", "empty-tail-root"} {
+		cl := sub.clone()
+		switch kind {
+		case "root-bit-flipped":
+			cl.root = flip(cl.root, r)
+		case "unrelated-root":
+			cl.root = make([]byte, 32)
+			for i := range cl.root {
+				cl.root[i] = byte(r.Intn(256))
+			}
+		case "empty-tail-root":
+			cl.root = append(bytes.Clone(cl.root), 0)
+		}
+		acc, perr := e.verify(cl)
+		c.Inc("single_tree_wrong_root_checks")
+		c.Eval(fmt.Sprintf("%s|%s|single-tree|%s|acc=%v", store, kindName, kind, acc))
+		if perr != nil {
+			e.lim.violate("C18|verifier-panics|single-tree-"+kind, fmt.Sprintf("verifier panicked: %v", perr), nil)
+			continue
+		}
+		if acc {
+			e.lim.violate("C18|mutated-proof-verified|single-tree-"+kind, fmt.Sprintf("%s-key proof of a single-tree store verified under a root that is not the tree's root (%s)", kindName, kind),
+				map[string]any{"store": store, "key": hex.EncodeToString(key), "member": cl.member, "tree_root": hex.EncodeToString(sub.root), "claimed_root": hex.EncodeToString(cl.root)})
 		}
 	}
 }
@@ -1059,6 +1108,7 @@ func TestC18(t *testing.T) {
 	c.Floor("honest_accepted_absent", 100)
 	c.Floor("mutants_verified", 6000)
 	c.Floor("mutants_refused", 6000)
+	c.Floor("single_tree_wrong_root_checks", 600)
 	c.Floor("buildpath_calls", 1000)
 	c.Floor("buildpath_spare_capacity_cases", 500)
 	lim := &sigLimiter{c: c}
